@@ -33,9 +33,12 @@ Targets == {<<>>, <<foo>>, <<<<"a", "/">> \o foo>>, <<<<"b", "/">> \o baz, fooba
 XA == <<"a", "/">> \o foobar
 XB == <<"b", "/", "*">>
 XF == foo
+XQ == <<"a", "/", "q", "*">>
 XPairs == {<<<<>>, <<>>>>}
           \cup {<<<<x>>, <<>>>> : x \in {XA, XB, XF}} \cup {<<<<>>, <<x>>>> : x \in {XA, XB, XF}}
           \cup {<<<<XA>>, <<XB>>>>, <<<<XB>>, <<XF>>>>, <<<<XF>>, <<XA>>>>, <<<<XA, XF>>, <<XB>>>>}
+          \* lists mixing a globbed and an exact package name (with / without category, in one list or across -x and -X)
+          \cup {<<<<XQ, XA>>, <<>>>>, <<<<>>, <<XA, XQ>>>>, <<<<XQ>>, <<XA>>>>, <<<<<<"q", "*">>, foobar>>, <<>>>>, <<<<<<"b", "/", "b", "*">>, XA>>, <<>>>>}
 Filters == IF Size = 1 THEN {<<FALSE, FALSE>>, <<TRUE, TRUE>>} ELSE BOOLEAN \X BOOLEAN
 Cases == {[files |-> Files, repo |-> r, installed |-> ins, targets |-> t, excludes |-> x[1], xfile |-> x[2],
            opts |-> [exclInstalled |-> i, exclExists |-> e, exclFetch |-> f, useM |-> fl[1], useS |-> fl[2], T |-> 2, S |-> 200]] :
